@@ -104,15 +104,19 @@ def defaults_current(ck, ctx, info, rule, key):
     st_uses = []
     for bb, t in Q.sites_in(b, "std::vec::Vec::is_empty"):
         e = strip(R.arg(bb, 0))
-        if field_chain(e)[1][-1:] == ["default"]:
+        if C.names_field(e, "default"):
             st_uses.append((bb, e))
     for bb, t in Q.sites_in(b, "work::Work::want_file"):
         if cfg.dominates(bb, info["p1"][0]):
             continue
         e = R.arg(bb, 1)
         for y in walk(e):
+            if y[0] == "phi" and C.names_field(y, "default"):
+                st_uses.append((bb, y))
+                break
             if y[0] == "field" and field_chain(strip(y))[1][-1:] == ["default"]:
                 st_uses.append((bb, strip(y)))
+                break
     okd = len(st_uses) >= 2 and all(any(c[3] == l2[0] for c in calls_in(e)) and any(c[3] == l1[0] for c in calls_in(e)) for bb, e in st_uses)
     ck.ob(rule, key, okd, "State.default read in phase 2 (%d reads: emptiness test, iteration) is that of whichever State is current (first load or reload)" % len(st_uses), span=b.loc, fn=BUILD)
 
@@ -128,16 +132,7 @@ def reload(ck, ctx, info):
     l1, l2 = loads[0], loads[-1]
     n1, n2 = news[0], news[-1]
 
-    def pred_zero(e):
-        e = strip(e)
-        if e[0] == "bin" and e[1] == "Eq" and e[3] == ("const", 0) and field_chain(strip(e[2]))[1][-1:] == ["tasks_run"]:
-            return "neg"
-        if e[0] == "bin" and e[1] in ("Ne", "Gt") and e[3] == ("const", 0) and field_chain(strip(e[2]))[1][-1:] == ["tasks_run"]:
-            return True
-        return False
-
-    g_ran = C.bool_gate_edges(ctx, b, pred_zero)
-    g_idle = {(x, [l for l in Q.bool_edges(b.blocks[x]["term"]) if l != lab][0]) for x, lab in g_ran}
+    g_idle, g_ran = C.zero_test_edges(ctx, b, lambda e: field_chain(e)[1][-1:] == ["tasks_run"])
     ck.ob("reload", "tested-after-phase1", len(g_ran) == 1 and all(Q.gated(cfg, x, {(sw1[0], sw1[1])})[0] for x, _ in g_ran), "after a successful phase 1, work.tasks_run is compared with 0", span=b.loc, fn=BUILD)
     ok = Q.gated(cfg, l2[0], g_ran)[0] and Q.gated(cfg, n2[0], g_ran)[0]
     ck.ob("reload", "reload-iff-ran", ok, "the second load::read and Work::new happen only on tasks_run != 0", span=l2[1]["loc"], fn=BUILD)
